@@ -524,7 +524,7 @@ def _names(tier: str):
 
 def harnesses(tier: str) -> List[Harness]:
     q = tier == "quick"
-    nmax = 7 if q else 12
+    nmax = 7 if q else 10
     smax = 4 if q else 5
     names = _names(tier)
     META["bounds"][tier] = {"parameter sets": "1..%d" % nmax, "batch_size": "1..n+2 symbolic",
